@@ -440,9 +440,9 @@ OBLIGATIONS = [
        timeout=900, bound="as latency, the hung worker also ignores SIGABRT: KILL on the next scan, reaped, replaced"),
     Ob("C11.sync_gaps", "sync_gaps",
        cases={"quick": [{"timeout": 4, "listeners": 1, "tape": 4}, {"timeout": 1, "listeners": 1, "tape": 3},
-                        {"timeout": 4, "listeners": 2, "tape": 3}],
+                        {"timeout": 4, "listeners": 2, "tape": 5}],
               "thorough": [{"timeout": 4, "listeners": 1, "tape": 6}, {"timeout": 1, "listeners": 1, "tape": 5},
-                           {"timeout": 30, "listeners": 1, "tape": 5}, {"timeout": 4, "listeners": 2, "tape": 5}]},
+                           {"timeout": 30, "listeners": 1, "tape": 5}, {"timeout": 4, "listeners": 2, "tape": 7}]},
        timeout={"quick": 600, "thorough": 2400},
        bound="SyncWorker.run with 1 or 2 listeners, timeout in {1,4} s (thorough +30), tape of <=4 (6) events: accept-or-EAGAIN, "
              "request duration < timeout (ms, symbolic), select returning after <= its timeout (ms, symbolic)"),
